@@ -51,6 +51,33 @@ func c41(r *core.Report, p *core.Prog, thorough bool) {
 	r.Rule("C41.monotone", "StartLFBTicketWorker: each value flowing into the loop-carried `latest` other than itself is dominated by v.Round > latest.Round on the same v")
 	r.Rule("C41.report", "the getLFBTicket channel is sent to only by the worker and only with `latest`; updateLFBTicket is sent to only by AddReceivedLFBTicket")
 	r.Rule("C41.admission", "every AddReceivedLFBTicket call passes a ticket dominated by verifyLFBTicket(t)==true, or a fresh literal that sets only Round (local bump)")
+	r.Rule("C41.immutable", "the signed fields of an LFB ticket (Round, SharderID, LFBHash, Sign) are stored only on a ticket that the storing function has just constructed: a ticket handed out by the ticket worker is shared, and rewriting its round lowers the node's latest ticket behind the worker's back")
+	{
+		n := 0
+		for _, fname := range []string{"Round", "SharderID", "LFBHash", "Sign"} {
+			f := p.Field(pkgChain, "LFBTicket", fname)
+			if f == nil {
+				r.Unresolved("C41.immutable", "LFBTicket."+fname)
+				continue
+			}
+			for _, w := range core.FieldWrites(p.ModFuncs(), f) {
+				if isTooling(p, w.Fn) {
+					continue
+				}
+				n++
+				key := fmt.Sprintf("write:%s:%s", core.EnclosingNamed(w.Fn).Name(), fname)
+				fresh := w.Kind == "store" && w.Addr != nil && isFresh(w.Addr)
+				if !fresh && w.Addr != nil {
+					// `t := new(LFBTicket)` / `&LFBTicket{}` held in a local
+					if al, ok := canonObj(w.Addr.X).(*ssa.Alloc); ok && al.Heap {
+						fresh = true
+					}
+				}
+				r.Check(fresh, "C41.immutable", key, p.Pos(w.Instr.Pos()), "stores to a signed ticket field happen on a freshly constructed ticket only")
+			}
+		}
+		r.Floor("C41.immutable", "stores to signed LFB ticket fields", n, 2)
+	}
 	r.Rule("C41.signer", "verifyLFBTicket: non-false only if GetCurrentMagicBlock().Sharders.GetNode(t.SharderID) != nil and its Verify(t.Sign, t.Hash()) gave ok && err==nil; Hash covers Round, SharderID, LFBHash")
 	w := p.Func("(*" + pkgChain + ".Chain).StartLFBTicketWorker")
 	vf := p.Func("(*" + pkgChain + ".Chain).verifyLFBTicket")
